@@ -3,12 +3,15 @@ package props
 import (
 	"encoding/json"
 	"fmt"
+	"reflect"
+	"sort"
 	"strings"
 
 	gpb "github.com/openconfig/gnmi/proto/gnmi"
 	"github.com/openconfig/ygot/ygot"
 	"github.com/openconfig/ygot/ytypes"
 	"github.com/openconfig/ygot/zzverif/core"
+	"google.golang.org/protobuf/encoding/prototext"
 )
 
 func init() { core.RegisterProp(&core.Prop{ID: "C03", Run: runC03, Replay: replayC03}) }
@@ -269,6 +272,28 @@ func runC03(c *core.Ctx) {
 				}
 			})
 		}
+		// calls after a failed call: all ordered pairs of focused k<=1 states x options
+		{
+			foc := core.Explore(p, core.FocusAtoms(p.Atoms()), 1)
+			fn := len(foc.States)
+			c.R.Add("transitions", int64(fn*fn))
+			core.ParallelFor(fn, func(i int) {
+				for j := 0; j < fn; j++ {
+					for _, opt := range c03Opts {
+						if opt == "single" && !p.Compressed {
+							continue
+						}
+						c.R.Add("evaluations", 1)
+						aa, ba := foc.SeqAtoms(foc.States[i]), foc.SeqAtoms(foc.States[j])
+						sig, d, oc := c03AfterFailure(p, aa, ba, opt)
+						c.R.Outcome("after-failure:" + oc)
+						if sig != "" {
+							c.R.Violation(sigFor(sig, aa)+" -> "+sigFor("", ba), d, map[string]interface{}{"pkg": p.Name, "a": atomNames(aa), "b": atomNames(ba), "opt": opt, "history": "Diff(a,b); failing Diff; Diff(a,b)"})
+						}
+					}
+				}
+			})
+		}
 		// histories: chains a -> b -> c over the focused alphabet, each diff applied to the running copy
 		foc := core.Explore(p, core.FocusAtoms(p.Atoms()), 1)
 		fn := len(foc.States)
@@ -295,6 +320,127 @@ func runC03(c *core.Ctx) {
 			}
 		})
 	}
+}
+
+// c03Poison builds trees for which Diff fails: the tree of seq with the leaves (key leaf included)
+// of one keyed-list entry set to nil ("nilkey"), and the tree of seq plus an unkeyed-list atom
+// ("unkeyed", when the package has one). A failing call must leave nothing behind that a later
+// call can observe (caches, pooled scratch state).
+func c03Poison(p *core.Pkg, seq []*core.Atom) map[string]interface{} {
+	out := map[string]interface{}{}
+	if root, err := p.Build(seq); err == nil && c03NilKey(reflect.ValueOf(root)) {
+		out["nilkey"] = root
+	}
+	for _, a := range p.Atoms() {
+		if a.Kind == "unkeyed" {
+			if root, err := p.Build(append(append([]*core.Atom{}, seq...), a)); err == nil {
+				out["unkeyed"] = root
+			}
+			break
+		}
+	}
+	return out
+}
+
+// c03NilKey sets every scalar leaf of the first keyed-list entry found (depth-first) to nil.
+func c03NilKey(v reflect.Value) bool {
+	if v.Kind() == reflect.Ptr {
+		if v.IsNil() {
+			return false
+		}
+		v = v.Elem()
+	}
+	if v.Kind() != reflect.Struct {
+		return false
+	}
+	for i := 0; i < v.NumField(); i++ {
+		f := v.Field(i)
+		switch f.Kind() {
+		case reflect.Map:
+			for _, k := range f.MapKeys() {
+				e := f.MapIndex(k)
+				if e.Kind() != reflect.Ptr || e.IsNil() || e.Elem().Kind() != reflect.Struct {
+					continue
+				}
+				done := false
+				for j := 0; j < e.Elem().NumField(); j++ {
+					lf := e.Elem().Field(j)
+					if lf.Kind() == reflect.Ptr && !lf.IsNil() && lf.Elem().Kind() != reflect.Struct && lf.CanSet() {
+						lf.Set(reflect.Zero(lf.Type()))
+						done = true
+					}
+				}
+				if done {
+					return true
+				}
+			}
+		case reflect.Ptr:
+			if !f.IsNil() && f.Elem().Kind() == reflect.Struct && c03NilKey(f) {
+				return true
+			}
+		}
+	}
+	return false
+}
+
+// c03Text renders notifications up to the orders that carry no meaning (Go map iteration decides
+// them): deletes and the updates of non-atomic notifications are sorted, as are the notifications.
+func c03Text(ns []*gpb.Notification, err error) string {
+	if err != nil {
+		return "error: " + err.Error()
+	}
+	f := prototext.MarshalOptions{Multiline: false}
+	var all []string
+	for _, n := range ns {
+		var del, upd []string
+		for _, d := range n.Delete {
+			del = append(del, f.Format(d))
+		}
+		for _, u := range n.Update {
+			upd = append(upd, f.Format(u))
+		}
+		sort.Strings(del)
+		if !n.Atomic {
+			sort.Strings(upd)
+		}
+		all = append(all, fmt.Sprintf("atomic=%v prefix=%s\n  delete: %s\n  update: %s", n.Atomic, f.Format(n.Prefix), strings.Join(del, " | "), strings.Join(upd, " | ")))
+	}
+	sort.Strings(all)
+	return strings.Join(all, "\n")
+}
+
+// c03AfterFailure: Diff(a,b) is computed, then a failing Diff call is made on a tree that shares
+// paths with a, then Diff(a,b) is computed again on fresh copies: both results must be equal and
+// the second must pass the full pair oracle as well.
+func c03AfterFailure(p *core.Pkg, aa, ba []*core.Atom, opt string) (sig, detail, outcome string) {
+	pr := c03Prep(p, aa, ba)
+	if pr == nil || len(pr.ma.Unkeyed) > 0 || len(pr.mb.Unkeyed) > 0 {
+		return "", "", "excluded"
+	}
+	first := c03Text(c03Run(pr.a.(ygot.GoStruct), pr.b.(ygot.GoStruct), opt))
+	poisons := c03Poison(p, aa)
+	if len(poisons) == 0 {
+		return "", "", "no-failing-call-available"
+	}
+	for _, kind := range []string{"nilkey", "unkeyed"} {
+		bad, ok := poisons[kind]
+		if !ok {
+			continue
+		}
+		if _, err := c03Run(bad.(ygot.GoStruct), bad.(ygot.GoStruct), opt); err == nil {
+			outcome += kind + "-did-not-fail,"
+			continue
+		}
+		outcome += kind + "-failed,"
+		second := c03Text(c03Run(pr.a.(ygot.GoStruct), pr.b.(ygot.GoStruct), opt))
+		if second != first {
+			return "result-depends-on-history(after-failed-" + kind + ")@" + opt, fmt.Sprintf("Diff(a,b) before the failing call:\n%s\nafter it:\n%s", first, second), outcome
+		}
+		if s, d := c03CheckPrepared(c03Prep(p, aa, ba), opt); s != "" {
+			return "result-depends-on-history(after-failed-" + kind + ")@" + opt, "pair oracle after the failing call: " + s + " " + d, outcome
+		}
+	}
+	return "", "", outcome
 }
 
 func c03Chain(p *core.Pkg, seqs [][]*core.Atom) (string, string, int) {
